@@ -1389,9 +1389,9 @@ def run(tier, seed, model_ok, translator, search=False):
                 "Non-trivial: pandas called __finalize__ at least once; distinct by (plan, recorded calls).") % (
                     len(_ops()), N_MUT)
     ops = _ops()
-    reps = 1 if tier == "quick" else 6
+    reps = 1 if tier == "quick" else 4
     n_pairs = len(ops) * N_MUT * reps
-    n_chains = 350 if tier == "quick" else 6000
+    n_chains = 350 if tier == "quick" else 4000
     undo = install()
     pend, mops = [], []
     per_key = {}
